@@ -14,7 +14,7 @@ func init() { register("C01", "exploration", runC01) }
 
 // C01: differential monitor: generated mutation programs against the reference data model, full re-read after every request.
 func runC01(run *common.Run) {
-	run.Rule = "case = one generated mutation program (20-60 MutateRow/MutateRows requests over 8 colliding row keys, 2+1 families, 5 qualifiers, boundary/invalid timestamps, moving injected clock; every fourth program is a wide-column program: 2 rows x 4 columns, 64 timestamps, up to 12 mutations per request, so columns hold dozens of versions that are overwritten in place and cut by narrow delete ranges; every eighth is a many-column program over 54 qualifiers, so families hold dozens of columns) run on one engine; after every request the whole table and the touched rows are re-read and compared cell-for-cell with the reference model. Part 'heavy': rows whose cells hold values of 256 KiB ... 1 MiB + 1 in every position, re-read alone and in scans after each write. Non-trivial = the program had at least one delete that removed a cell, one rejected request and one server-time write; distinct by program hash x engine."
+	run.Rule = "case = one generated mutation program (20-60 MutateRow/MutateRows requests over 8 colliding row keys, 2+1 families, 5 qualifiers, boundary/invalid timestamps, moving injected clock; every fourth program is a wide-column program: 2 rows x 4 columns, 64 timestamps, up to 12 mutations per request, so columns hold dozens of versions that are overwritten in place and cut by narrow delete ranges; every eighth is a many-column program over 54 qualifiers, so families hold dozens of columns) run on one engine; after every request the whole table and the touched rows are re-read and compared cell-for-cell with the reference model. Part 'bigbatch': MutateRows requests of 1001-2600 entries with invalid entries at PRNG positions (among them 256, 500, 1000, 1001, the last one): one status per entry under its own index, invalid entries rejected and not stored, table equal to the model. Part 'heavy': rows whose cells hold values of 256 KiB ... 1 MiB + 1 in every position, re-read alone and in scans after each write. Non-trivial = the program had at least one delete that removed a cell, one rejected request and one server-time write; distinct by program hash x engine."
 	run.Assumptions = []string{"reference model written from the data-model documentation", "family order within a row is unspecified and not compared", "error codes are not compared, only OK vs not-OK"}
 	j := common.NewJournal("C01")
 	nprog := run.N(600, 6000)
@@ -50,6 +50,11 @@ func runC01(run *common.Run) {
 			c01Heavy(run, i/3, drive.Engines[i%3], i)
 			j.End(i % 64)
 		})
+	}
+	if run.WantSub("bigbatch") && !run.TooMany() {
+		// MutateRows requests of 1001-2600 entries with invalid entries at positions below and beyond 256 / 500 / 1000:
+		// exactly one status per entry, under the entry's own index; invalid ones rejected and not stored
+		bigBatchPart(run, "bigbatch")
 	}
 	if run.IsThorough() && run.WantSub("exh") {
 		c01Exhaustive(run)
